@@ -226,6 +226,63 @@ func VerifHarness_C19_sortedmap_ready() {
 	vReach("ready-done")
 }
 
+// the nonce index of a txSortedMap is a min-heap holding exactly the nonces of its items
+func vC19HeapOK(m *txSortedMap) bool {
+	idx := *m.index
+	if len(idx) != len(m.items) {
+		return false
+	}
+	for i := 1; i < len(idx); i++ {
+		if idx[(i-1)/2] > idx[i] {
+			return false
+		}
+	}
+	for _, n := range idx {
+		if m.items[n] == nil {
+			return false
+		}
+	}
+	return true
+}
+
+// txSortedMap.Remove of any nonce (present or not, leaf of the heap or not) keeps the index a heap,
+// so that what is executable afterwards is still found: Forward / ReadyN after the removal return
+// exactly the maximal consecutive run.
+func VerifHarness_C19_sortedmap_remove() {
+	m := newTxSortedMap()
+	cnt := vNondetLen("count", 4, vParam("M", 5))
+	had := make([]bool, 10)
+	// every insertion order of cnt distinct nonces out of 0..5 (concrete choices: the heap shapes matter)
+	for i := 0; i < cnt; i++ {
+		nonce := uint64(vNondetLen("nonce", 0, 5))
+		vAssume(!had[nonce])
+		had[nonce] = true
+		m.Add(etypes.NewTransaction(nonce, common.Address{}, nil, 0, nil, []byte{1, byte(i)}))
+	}
+	vAssert(vC19HeapOK(m), "index-is-a-heap-after-inserts")
+	r := uint64(vNondetLen("remove", 0, 6))
+	was := m.Get(r) != nil
+	removed := m.Remove(r)
+	vAssert(removed == was, "remove-reports-presence")
+	had[r] = false
+	vReach("removed-one")
+	vAssert(m.Get(r) == nil && m.Len() == len(m.items), "removed-nonce-is-gone")
+	vAssert(vC19HeapOK(m), "index-is-a-heap-after-remove")
+	// what is executable from the lowest remaining nonce on is still found
+	start := uint64(0)
+	for start < 9 && !had[start] {
+		start++
+	}
+	m.Forward(start)
+	ready := m.ReadyN(start, 8)
+	run := 0
+	for n := start; n < 10 && had[n]; n++ {
+		run++
+	}
+	vAssert(len(ready) == run, "ready-after-remove-is-the-maximal-run")
+	vAssert(vC19HeapOK(m), "index-is-a-heap-after-ready")
+}
+
 func vC19CheckN(tp *ethTxPool, limit int, accts int) {
 	vAssert(vC19Count(tp.pending) <= limit, "pending-within-limit")
 	vAssert(vC19Count(tp.waiting) <= limit, "waiting-within-limit")
